@@ -168,12 +168,21 @@ DTDValidator::validateAttrValue(const   XMLAttDef*      attDef
         return;
     }
 
-    // See whether we are doing multiple values or not
+    // See whether we are doing multiple values or not. NOTATION and
+    // enumerated types hold exactly one token (VC: Notation Attributes,
+    // VC: Enumeration), so a space inside their value is an error.
     const bool multipleValues =
     (
         (type == XMLAttDef::IDRefs)
         || (type == XMLAttDef::Entities)
         || (type == XMLAttDef::NmTokens)
+    );
+
+    // The tokenized and enumerated types whose value is whitespace
+    // normalized before it is checked
+    const bool collapseValue =
+    (
+        multipleValues
         || (type == XMLAttDef::Notation)
         || (type == XMLAttDef::Enumeration)
     );
@@ -228,7 +237,7 @@ DTDValidator::validateAttrValue(const   XMLAttDef*      attDef
     //   - ...
     //   - attributes with tokenized types, where the attribute appears in the document with a value such that normalization will 
     //     produce a different value from that which would be produced in the absence of the declaration"
-    if (multipleValues && (!isExternal || !getScanner()->getStandalone()))
+    if (collapseValue && (!isExternal || !getScanner()->getStandalone()))
         XMLString::collapseWS(pszTmpVal, getScanner()->getMemoryManager());
 
     XMLCh* valPtr = pszTmpVal;
